@@ -267,3 +267,136 @@ pub proof fn lemma_domain_valid(f: &Fsm, g: &GlobalData, t: Transition)
     }
     lemma_find_lcca_valid(f, l);
 }
+
+/// exit set of a single transition (as used by removeConflictingTransitions)
+pub open spec fn exit1(f: &Fsm, g: &GlobalData, t: u32) -> Seq<u32> {
+    spec_exit_set(f, g, seq![t])
+}
+
+pub open spec fn conflicts(f: &Fsm, g: &GlobalData, t1: u32, t2: u32) -> bool {
+    intersects(exit1(f, g, t1), exit1(f, g, t2))
+}
+
+/// state of the inner loop of removeConflictingTransitions after the first k members of `fl`:
+/// (t1 pre-empted, transitions to remove)
+pub open spec fn conflict_scan(f: &Fsm, g: &GlobalData, t1: u32, fl: Seq<u32>, k: int) -> (bool, Seq<u32>)
+    decreases k,
+{
+    if k <= 0 {
+        (false, Seq::empty())
+    } else {
+        let (p, acc) = conflict_scan(f, g, t1, fl, k - 1);
+        let t2 = fl[k - 1];
+        if p {
+            (p, acc)
+        } else if conflicts(f, g, t1, t2) {
+            if is_desc(f, tr(f, t1).source, tr(f, t2).source) {
+                (false, set_add(acc, t2))
+            } else {
+                (true, acc)
+            }
+        } else {
+            (false, acc)
+        }
+    }
+}
+
+pub open spec fn remove_all(s: Seq<u32>, rm: Seq<u32>) -> Seq<u32>
+    decreases rm.len(),
+{
+    if rm.len() == 0 {
+        s
+    } else {
+        seq_without(remove_all(s, rm.drop_last()), rm.last())
+    }
+}
+
+/// W3C removeConflictingTransitions, one outer iteration
+pub open spec fn conflict_step(f: &Fsm, g: &GlobalData, filtered: Seq<u32>, t1: u32) -> Seq<u32> {
+    let (p, rm) = conflict_scan(f, g, t1, filtered, filtered.len() as int);
+    if p {
+        filtered
+    } else {
+        set_add(remove_all(filtered, rm), t1)
+    }
+}
+
+pub open spec fn remove_conflicts_k(f: &Fsm, g: &GlobalData, enabled: Seq<u32>, k: int) -> Seq<u32>
+    decreases k,
+{
+    if k <= 0 {
+        Seq::empty()
+    } else {
+        conflict_step(f, g, remove_conflicts_k(f, g, enabled, k - 1), enabled[k - 1])
+    }
+}
+
+/// W3C removeConflictingTransitions(enabledTransitions)
+pub open spec fn spec_remove_conflicts(f: &Fsm, g: &GlobalData, enabled: Seq<u32>) -> Seq<u32> {
+    remove_conflicts_k(f, g, enabled, enabled.len() as int)
+}
+
+/// once pre-empted, the scan result no longer changes
+pub proof fn lemma_scan_preempted(f: &Fsm, g: &GlobalData, t1: u32, fl: Seq<u32>, k: int, n: int)
+    requires
+        0 <= k <= n,
+        conflict_scan(f, g, t1, fl, k).0,
+    ensures
+        conflict_scan(f, g, t1, fl, n) == conflict_scan(f, g, t1, fl, k),
+    decreases n - k,
+{
+    if k < n {
+        lemma_scan_preempted(f, g, t1, fl, k, n - 1);
+    }
+}
+
+pub proof fn lemma_seq_without_subset(s: Seq<u32>, e: u32)
+    ensures
+        forall|x: u32| #[trigger] seq_without(s, e).contains(x) ==> s.contains(x),
+{
+    lemma_filter_subset(s, neq_pred(e));
+}
+
+pub proof fn lemma_remove_all_subset(s: Seq<u32>, rm: Seq<u32>)
+    ensures
+        forall|x: u32| #[trigger] remove_all(s, rm).contains(x) ==> s.contains(x),
+    decreases rm.len(),
+{
+    if rm.len() > 0 {
+        lemma_remove_all_subset(s, rm.drop_last());
+        lemma_seq_without_subset(remove_all(s, rm.drop_last()), rm.last());
+    }
+}
+
+pub proof fn lemma_conflict_step_valid(f: &Fsm, g: &GlobalData, filtered: Seq<u32>, t1: u32)
+    requires
+        all_valid_tr(f, filtered),
+        valid_tr(f, t1),
+    ensures
+        all_valid_tr(f, conflict_step(f, g, filtered, t1)),
+{
+    let (p, rm) = conflict_scan(f, g, t1, filtered, filtered.len() as int);
+    if !p {
+        let ra = remove_all(filtered, rm);
+        lemma_remove_all_subset(filtered, rm);
+        let r = set_add(ra, t1);
+        assert forall|i: int| 0 <= i < r.len() implies valid_tr(f, #[trigger] r[i]) by {
+            if i < ra.len() {
+                assert(ra.contains(ra[i]));
+                assert(filtered.contains(ra[i]));
+                let j = choose|j: int| 0 <= j < filtered.len() && filtered[j] == ra[i];
+                assert(valid_tr(f, filtered[j]));
+            }
+        }
+    }
+}
+
+/// the exit set of a one-element transition list, however that list was built
+pub proof fn lemma_exit1(f: &Fsm, g: &GlobalData, t: u32)
+    ensures
+        forall|l: Seq<u32>| l.len() == 1 && l[0] == t ==> #[trigger] spec_exit_set(f, g, l) == exit1(f, g, t),
+{
+    assert forall|l: Seq<u32>| l.len() == 1 && l[0] == t implies #[trigger] spec_exit_set(f, g, l) == exit1(f, g, t) by {
+        assert(l =~= seq![t]);
+    }
+}
